@@ -95,6 +95,13 @@ RestrictV(tO, tN, v) ==
                 LET y == CHOOSE y \in 1..Len(tN.fields) : tN.fields[y].num = tO.fields[x].num
                 IN  RestrictV(tO.fields[x].t, tN.fields[y].t, v[y])])
 
+(* --- the three pure helpers of the runtimes (bp.py:452-487; getMask / getNbitsToCopy /  *)
+(* smartShift in bitproto.go; BpMinTriple and the mask expressions in bitproto.c) -- defined *)
+(* once, used by Codec, by the optimization-mode plan and by C19                          *)
+NCopy(i, j, n) == Min3(n - j, 8 - (j % 8), 8 - (i % 8))
+Mask(k, c) == IF k = 0 THEN Pow2(c) - 1 ELSE Pow2(k + c) - Pow2(k)
+SmartShift(b, k) == IF k > 0 THEN b \div Pow2(k) ELSE IF k < 0 THEN b * Pow2(0 - k) ELSE b
+
 (* ---- JSON ---- *)
 (* neutral JSON tree: [j |-> "o", kv |-> << <<key, tree>>, ... >>],        *)
 (* [j |-> "l", xs |-> <<tree...>>], [j |-> "b", b |-> BOOLEAN],            *)
